@@ -98,13 +98,13 @@ def scenarios(ctx):
     with open(gen) as fh:
         tiny = [json.loads(x) for x in fh if x.strip()]
     ctx.notes["tlc_enumerated_instances"] = len(tiny)
-    scs += [{"inst": t, "positions": True} for t in tiny]
+    scs += [{"inst": t, "positions": True, "order": i % 3} for i, t in enumerate(tiny)]
     # ---- seeded random larger instances ----
     n = 1500 if q else 30000
     for i in range(n):
         inst = rand_instance(rng, big=(i % 4 == 0))
         covered = {c[0] for r in inst["reads"] for c in r["cells"]}
-        scs.append({"inst": inst, "positions": not (len(covered) == inst["m"] and rng.random() < 0.5)})
+        scs.append({"inst": inst, "positions": not (len(covered) == inst["m"] and rng.random() < 0.5), "order": i % 3})
     # ---- instances that whole `whatshap phase` runs hand to the solver (recorded by the H1 hook) ----
     from .. import phaseworld as PW
     for i in range(250 if q else 4000):
@@ -124,7 +124,7 @@ def scenarios(ctx):
     return scs
 
 
-def solve(inst, positions=True):
+def solve(inst, positions=True, order=0):
     from whatshap.core import (ReadSet, Read, Pedigree, NumericSampleIds, PedigreeDPTable, Genotype,
                                PhredGenotypeLikelihoods)
     ids = NumericSampleIds()
@@ -144,17 +144,46 @@ def solve(inst, positions=True):
         rs.add(rd)
     pos = [c * 10 for c in range(1, m + 1)] if positions else None
     dp = PedigreeDPTable(rs, list(inst["rc"]), ped, bool(inst["distrust"]), pos)
-    srs, tv = dp.get_super_reads()
-    cost = dp.get_optimal_cost()
-    part = dp.get_optimal_partitioning()
-    sr = []
-    for s in srs:
-        pair = []
-        for h in range(2):
-            d = {v.position: v.allele for v in s[h]} if len(s) == 2 else {}
-            pair.append([int(d.get(c * 10, 9)) for c in range(1, m + 1)])
-        sr.append(pair)
-    return {"ev": "Solve", "inst": inst, "cost": int(cost), "part": [int(x) for x in part], "tv": [int(x) for x in tv], "sr": sr}
+    def project(srs):
+        sr = []
+        for s in srs:
+            pair = []
+            for h in range(2):
+                d = {v.position: v.allele for v in s[h]} if len(s) == 2 else {}
+                pair.append([int(d.get(c * 10, 9)) for c in range(1, m + 1)])
+            sr.append(pair)
+        return sr
+    # The accessors may be called in any order and any number of times: every partition / super-read set /
+    # transmission vector the object ever returns must be a witness of the reported cost.
+    observed = []
+    if order == 0:
+        srs, tv = dp.get_super_reads()
+        cost = dp.get_optimal_cost()
+        observed.append((dp.get_optimal_partitioning(), project(srs), tv))
+    elif order == 1:
+        p1 = dp.get_optimal_partitioning()
+        srs, tv = dp.get_super_reads()
+        cost = dp.get_optimal_cost()
+        observed.append((p1, project(srs), tv))
+        observed.append((dp.get_optimal_partitioning(), project(srs), tv))
+    else:
+        p1 = dp.get_optimal_partitioning()
+        p2 = dp.get_optimal_partitioning()
+        cost = dp.get_optimal_cost()
+        srs, tv = dp.get_super_reads()
+        srs2, tv2 = dp.get_super_reads()
+        observed.append((p1, project(srs), tv))
+        observed.append((p2, project(srs2), tv2))
+    evs = []
+    seen = set()
+    for part, sr, tv in observed:
+        key = json.dumps([list(part), sr, list(tv)])
+        if key in seen:
+            continue
+        seen.add(key)
+        evs.append({"ev": "Solve", "inst": inst, "cost": int(cost), "part": [int(x) for x in part], "tv": [int(x) for x in tv],
+                    "sr": sr, "order": order})
+    return evs
 
 
 def h1_to_solve(h):
@@ -185,7 +214,7 @@ def drive(sc):
                 and len(h["acc"]) <= 8] or \
                [{"ev": "Solve", "inst": {"nInd": 1, "trios": [], "m": 0, "rc": [], "reads": [], "distrust": False, "gt": [[]], "gl": [[]]},
                  "cost": 0, "part": [], "tv": [], "sr": [[[], []]], "src": "pipeline-empty"}]
-    return [solve(sc["inst"], sc.get("positions", True))]
+    return solve(sc["inst"], sc.get("positions", True), sc.get("order", 0))
 
 
 def nontrivial(sc, events):
